@@ -11,6 +11,8 @@ func checkC09(p *Prog, r *Report) {
 	r.Rule("R1", "the look-up that decides the insertion of a binding and the insertion share one critical section; the single-binding look-up is present")
 	absenceThenInsert(p, ls, r, "R1", F("BindingManager.bindingEntries"), true, 1)
 	r.Rule("R2", "RemoveBinding keeps an entry ⇔ ¬(client address ∧ server feature equal); the per-entity removal keeps ⇔ ¬(client device ∧ client entity equal)")
+	r.Rule("R7", "every read-modify-write of the binding list reads and stores inside one critical section")
+	rebuildAtomic(p, ls, r, "R7", F("BindingManager.bindingEntries"), 3)
 	applyRetain(p, r, "R2", "spine", "BindingManager", "RemoveBinding", retainSpec{Field: F("BindingManager.bindingEntries"),
 		Required: map[string]string{"client.address": "=ClientFeature.Address()", "server.feature": "=ServerFeature"}})
 	applyRetain(p, r, "R2", "spine", "BindingManager", "RemoveBindingsForEntity", retainSpec{Field: F("BindingManager.bindingEntries"),
